@@ -28,6 +28,7 @@ _NP = {
     "stack": ("stack", [("arrays", "seq"), ("axis", "axis")]), "where": ("where", [("condition", "mask"), ("x", "x"), ("y", "y")]), "concatenate": ("concatenate", [("arrays", "seq"), ("axis", "axis")]),
     "reshape": ("reshape", [("a", "x"), ("newshape", "shape")]), "ravel": ("ravel", [("a", "x")]), "ones": ("ones", [("shape", "shape"), ("dtype", "dtype")]), "zeros": ("zeros", [("shape", "shape"), ("dtype", "dtype")]),
     "asarray": ("astensor", [("a", "x"), ("dtype", "dtype")]), "array": ("astensor", [("object", "x"), ("dtype", "dtype")]),
+    "min": ("min_of", [("a", "x")]), "max": ("max_of", [("a", "x")]), "amin": ("min_of", [("a", "x")]), "amax": ("max_of", [("a", "x")]),
 }
 _TORCH = {
     "clamp": ("clip", [("input", "x"), ("min", "lo"), ("max", "hi")]), "clip": ("clip", [("input", "x"), ("min", "lo"), ("max", "hi")]), "outer": ("outer", [("input", "x"), ("vec2", "y")]),
@@ -36,7 +37,7 @@ _TORCH = {
     "sqrt": ("sqrt", [("input", "x")]), "div": ("divide", [("input", "x"), ("other", "y")]), "divide": ("divide", [("input", "x"), ("other", "y")]), "log": ("log", [("input", "x")]), "exp": ("exp", [("input", "x")]),
     "stack": ("stack", [("tensors", "seq"), ("dim", "axis")]), "where": ("where", [("condition", "mask"), ("input", "x"), ("other", "y")]), "cat": ("concatenate", [("tensors", "seq"), ("dim", "axis")]),
     "concatenate": ("concatenate", [("tensors", "seq"), ("dim", "axis")]), "isfinite": ("isfinite", [("input", "x")]), "ones": ("ones", [("size", "shape"), ("dtype", "dtype")]), "zeros": ("zeros", [("size", "shape"), ("dtype", "dtype")]),
-    "tile": ("tile", [("input", "x"), ("dims", "repeats")]),
+    "tile": ("tile", [("input", "x"), ("dims", "repeats")]), "min": ("min_of", [("input", "x")]), "max": ("max_of", [("input", "x")]),
 }
 _TF = {
     "clip_by_value": ("clip", [("t", "x"), ("clip_value_min", "lo"), ("clip_value_max", "hi")]), "tile": ("tile", [("input", "x"), ("multiples", "repeats")]),
@@ -53,7 +54,9 @@ _METHODS = {"tile": ("tile", ["repeats"])}
 
 # backend method -> (canonical operation, {method parameter: role}, situations: list of {parameter: value-kind})
 OPS = {
-    "clip": ("clip", {"tensor_in": "x", "min_value": "lo", "max_value": "hi"}, [{}, {"min_value": None}, {"max_value": None}]),
+    # clipping from below only is what the evaluation uses (test statistics at 0, clip_sample_data / clip_bin_data); an
+    # absent LOWER bound is not used anywhere in pyhf and not part of this rule
+    "clip": ("clip", {"tensor_in": "x", "min_value": "lo", "max_value": "hi"}, [{}, {"max_value": None}]),
     "tile": ("tile", {"tensor_in": "x", "repeats": "repeats"}, [{}]),
     "outer": ("outer", {"tensor_in_1": "x", "tensor_in_2": "y"}, [{}]),
     "isfinite": ("isfinite", {"tensor": "x"}, [{}]),
@@ -234,7 +237,7 @@ def check(ctx, rid):
                 if got is None:
                     ctx.unrecognised(rid, m, label, f"the result is not a single library call ({_show(out)[:80]})")
                     continue
-                got = _normalise(got)
+                got = _normalise(got, backend)
                 want = _Canon(op, {r_: want_roles.get(r_) for r_ in roles.values()})
                 if got.key() == want.key():
                     n_ok += 1
@@ -277,14 +280,16 @@ def check(ctx, rid):
     return n_ok
 
 
-def _normalise(c):
-    """tensorflow's clip: an absent bound is replaced by the tensor's own extreme, which clips nothing."""
-    if c.op == "clip":
+def _normalise(c, backend=None):
+    """tensorflow's clip replaces an absent upper bound by the tensor's own maximum.  tf.clip_by_value lets the LOWER bound
+    win when the bounds cross (max(min(t, hi), lo)), so clip_by_value(t, lo, max(t)) == max(t, lo): no upper clipping.
+    numpy / jax / torch let the UPPER bound win (min(max(t, lo), hi)): there the same substitution returns max(t) when every
+    entry is below lo -- a negative test statistic survives the clip at zero -- and is NOT accepted."""
+    if c.op == "clip" and backend == "tensorflow":
         roles = dict(c.roles)
-        for role, ext_ in (("lo", "min_of"), ("hi", "max_of")):
-            v = roles.get(role)
-            if isinstance(v, _Wrap) and v.canon.op == ext_ and _show(v.canon.roles.get("x")) == _show(roles.get("x")):
-                roles[role] = None
+        v = roles.get("hi")
+        if isinstance(v, _Wrap) and v.canon.op == "max_of" and _show(v.canon.roles.get("x")) == _show(roles.get("x")):
+            roles["hi"] = None
         return _Canon("clip", roles)
     if c.op == "einsum" and c.roles.get("spec") == "i,j->ij" and isinstance(c.roles.get("operands"), list) and len(c.roles["operands"]) == 2:
         return _Canon("outer", {"x": c.roles["operands"][0], "y": c.roles["operands"][1]})
